@@ -380,6 +380,9 @@ func allowed(c *vkit.ClientSpec, uri, responseType string) (int, string) {
 
 // sameTarget: does location point at requested (ignoring added response parameters)?
 func sameTarget(location, requested string) bool {
+	if requested != "" && location == requested {
+		return true // byte-identical (also covers strings that are not parsable URIs, e.g. a form_post action)
+	}
 	pr, err := url.Parse(requested)
 	if err != nil || requested == "" {
 		return false
@@ -623,7 +626,14 @@ func run(c Case) *vkit.Result {
 	}
 
 	// completeness: an acceptable, fault-free code/implicit request reaches the redirect URI
-	if verdictQ > 0 && c.ErrPath == "none" && contains(cl.ResponseTypes, c.ResponseType) && c.ResponseType != "" {
+	_, perr := url.Parse(c.Requested)
+	if verdictQ > 0 && perr != nil {
+		// a string that matches a registered glob but is not a URI at all (e.g. "http://localhost:8080.evil/cb": invalid
+		// port) cannot be redirected to by anybody; refusing it is no loss of completeness
+		res.Label("grey:model-allowed-but-not-a-uri")
+		res.Grey = true
+	}
+	if verdictQ > 0 && perr == nil && c.ErrPath == "none" && contains(cl.ResponseTypes, c.ResponseType) && c.ResponseType != "" {
 		res.Label("must-deliver", "allow:"+reasonQ)
 		ok := false
 		if final != nil && final.Panic == nil {
